@@ -38,7 +38,7 @@ SetTop(F, fr) == [F EXCEPT ![Len(F)] = fr]
 (* ---------------- machine state helpers ------------------------------------------------------ *)
 Ev(M, e) == [M EXCEPT !.evs = Append(@, e)]
 TkRec == [st |-> "absent", reg |-> FALSE, by |-> 0, pc |-> 0, lastv |-> Val("N", 0, <<>>), deps |-> <<>>,
-          dsched |-> FALSE, cact |-> FALSE, ctxs |-> <<>>, gen |-> "new", recvs |-> <<>>]
+          dsched |-> FALSE, cact |-> FALSE, ctxs |-> <<>>, gen |-> "new", recvs |-> <<>>, dcb |-> FALSE]
 
 InitM(Pg) ==
   [ tk |-> [t \in 1..Len(Pg.tasks) |-> TkRec],
@@ -46,6 +46,8 @@ InitM(Pg) ==
     bt |-> EmptyFn, cur |-> [k \in 1..Len(Pg.kinds) |-> 0], bcount |-> [k \in 1..Len(Pg.kinds) |-> 0],
     stack |-> <<>>, sbat |-> {}, active |-> 0,
     cx |-> EmptyFn, sv |-> [v \in 1..(2 * Pg.nvars) |-> 0], saved |-> EmptyFn,
+    running |-> {},         \* tasks whose generator is executing right now (AsyncTask.running)
+    reg |-> EmptyFn,        \* DeduplicateDecorator.tasks: (function, key) -> task
     uidc |-> 0, round |-> 0, sched |-> <<>>, evs |-> <<>>, stuck |-> FALSE ]
 
 IsDone(M, f) == f \in DOMAIN M.out /\ M.out[f].done
@@ -53,6 +55,13 @@ MaxStack == IF "maxstack" \in DOMAIN P THEN P.maxstack ELSE MaxStackDefault
 
 SetOut(M, f, d, v, u) == [M EXCEPT !.out = Upd(@, f, FutRec(d, v, u))]
 DoneEv(M, f, v, u) == Ev(SetOut(M, f, TRUE, v, u), [e |-> "Done", a |-> f, v |-> v, u |-> u])
+
+(* a task completes: first the deduplicate callback (subscribed when the task was created through the decorator)
+   unregisters the task if it is still the one registered under its key, then the observable Done *)
+TaskDoneEv(M, t, v, u) ==
+  LET M1 == IF M.tk[t].dcb /\ DedupKey(P, t) \in DOMAIN M.reg /\ M.reg[DedupKey(P, t)] = t
+            THEN [M EXCEPT !.reg = Upd(@, DedupKey(P, t), 0)] ELSE M
+  IN DoneEv(M1, t, v, u)
 
 CreateTask(M, u, by, reg) ==
   LET M1 == [M EXCEPT !.tk[u].st = "created", !.tk[u].reg = reg, !.tk[u].by = by]
@@ -117,7 +126,7 @@ FailSuspended(M, t, v) ==
       M2 == Ev(M1, [e |-> "Closed", t |-> t, k |-> M.tk[t].pc])
       M3 == UnwindCtxs(M2, t)
       M4 == [M3 EXCEPT !.tk[t].gen = "none", !.tk[t].deps = <<>>, !.tk[t].lastv = Val("N", 0, <<>>), !.tk[t].st = "done"]
-  IN DoneEv(M4, t, v, u)
+  IN TaskDoneEv(M4, t, v, u)
 
 (* ---------------- batches -------------------------------------------------------------------- *)
 NewItem(M, kind, fid, t) ==
@@ -183,6 +192,17 @@ Build(M, t, k, s, p) ==       \* -> [M, s (resolved), p (last leaf position used
       [] s.g = "Bad" -> [M |-> M, s |-> Val("Bad", 0, <<>>), p |-> p + 1]
       [] s.g = "T"   -> [M |-> IF M.tk[s.n].st = "absent" THEN CreateTask(M, s.n, t, TRUE) ELSE M,
                          s |-> Val("F", s.n, <<>>), p |-> p + 1]
+      [] s.g = "D"   ->      \* DeduplicateDecorator.asynq for call site s.n
+           LET K == DedupKey(P, s.n)
+               w == IF K \in DOMAIN M.reg THEN M.reg[K] ELSE 0
+           IN IF w = 0
+              THEN LET M1 == CreateTask(M, s.n, t, TRUE)
+                       M2 == [M1 EXCEPT !.reg = Upd(@, K, s.n), !.tk[s.n].dcb = TRUE]
+                   IN [M |-> Ev(M2, [e |-> "DedupCall", t |-> t, a |-> s.n, b |-> s.n]), s |-> Val("F", s.n, <<>>), p |-> p + 1]
+              ELSE IF w \in M.running            \* task.running: hand out a fresh, unregistered task
+              THEN [M |-> Ev(CreateTask(M, s.n, t, TRUE), [e |-> "DedupCall", t |-> t, a |-> s.n, b |-> s.n]),
+                    s |-> Val("F", s.n, <<>>), p |-> p + 1]
+              ELSE [M |-> Ev(M, [e |-> "DedupCall", t |-> t, a |-> s.n, b |-> w]), s |-> Val("F", w, <<>>), p |-> p + 1]
       [] s.g = "I"   -> [M |-> NewItem(M, s.n, fid, t), s |-> Val("F", fid, <<>>), p |-> p + 1]
       [] s.g = "C"   -> [M |-> Ev(SetOut(M, fid, TRUE, VC(s.n), 0), [e |-> "NewFut", a |-> fid, b |-> 1, v |-> VC(s.n), u |-> 0]),
                          s |-> Val("F", fid, <<>>), p |-> p + 1]
@@ -203,19 +223,19 @@ RECURSIVE RunOps(_, _, _, _, _)
 RECURSIVE RunTerm(_, _, _, _)
 
 Epilogue(M, F, t) ==          \* tail of TaskScheduler._continue_with_task
-  [M |-> [M EXCEPT !.active = Top(F).d, !.tk[t].dsched = FALSE], F |-> Pop(F)]
+  [M |-> [M EXCEPT !.active = Top(F).d, !.tk[t].dsched = FALSE, !.running = @ \ {t}], F |-> Pop(F)]
 
 SegEndEv(M, t, k, b, s) == Ev(M, [e |-> "SegEnd", t |-> t, k |-> k, b |-> b, s |-> s, a |-> M.active])
 
 BodyRaise(M, F, t, v, u) ==   \* the body lets exception (v,u) escape: with-blocks are left, the task fails with it
   LET M1 == UnwindCtxs(M, t)
       M2 == [M1 EXCEPT !.tk[t].gen = "none", !.tk[t].deps = <<>>, !.tk[t].lastv = Val("N", 0, <<>>), !.tk[t].st = "done"]
-  IN Epilogue(DoneEv(M2, t, v, u), F, t)
+  IN Epilogue(TaskDoneEv(M2, t, v, u), F, t)
 
 BodyReturn(M, F, t) ==
   LET M1 == UnwindCtxs(M, t)
       M2 == [M1 EXCEPT !.tk[t].gen = "none", !.tk[t].deps = <<>>, !.tk[t].lastv = Val("N", 0, <<>>), !.tk[t].st = "done"]
-  IN Epilogue(DoneEv(M2, t, Val("r", t, M.tk[t].recvs), 0), F, t)
+  IN Epilogue(TaskDoneEv(M2, t, Val("r", t, M.tk[t].recvs), 0), F, t)
 
 Continue(M, F, t) ==          \* one turn of `while True` in AsyncTask._continue
   LET uw == UnwrapR(M.tk[t].lastv, M.out)
@@ -232,7 +252,7 @@ StartSeg(M, F, t, v, u, isExc) ==
       sb == [e |-> "SegBegin", t |-> t, k |-> k, v |-> v, u |-> u, a |-> M.active, xs |-> <<>>]
   IN IF isExc /\ ~prevCatch
      THEN BodyRaise(SegEndEv(Ev(M1, sb), t, k, 5, Val("N", 0, <<>>)), F, t, v, u)
-     ELSE LET M2 == Ev(M1, sb)
+     ELSE LET M2 == Ev([M1 EXCEPT !.running = @ \cup {t}], sb)
               M3 == IF k = 1 THEN M2
                     ELSE [M2 EXCEPT !.tk[t].recvs = Append(@, IF isExc THEN Val("caught", v.n, <<>>) ELSE v)]
           IN RunOps(M3, SetTop(F, FBody(t, k, 1, Top(F).d)), t, k, 1)
@@ -263,6 +283,8 @@ RunOps(M, F, t, k, i) ==
       [] o.o = "read" ->
            LET x == IF o.a < 100 THEN o.a ELSE P.nvars + (o.a - 100)
            IN RunOps(Ev(M, [e |-> "Read", t |-> t, a |-> o.a, v |-> VC(M.sv[x])]), F, t, k, i + 1)
+      [] o.o = "dirty" ->
+           RunOps(Ev([M EXCEPT !.reg = Upd(@, DedupKey(P, o.a), 0)], [e |-> "Dirty", t |-> t, a |-> o.a]), F, t, k, i + 1)
       [] o.o = "spawn" ->
            RunOps(IF M.tk[o.a].st = "absent" THEN CreateTask(M, o.a, t, TRUE) ELSE M, F, t, k, i + 1)
       [] o.o = "sync" ->
